@@ -9,6 +9,22 @@ use std::sync::atomic::{AtomicBool, AtomicUsize, Ordering};
 use std::sync::Mutex;
 
 static ARMED: AtomicBool = AtomicBool::new(false);
+/// when set (inside a simulated world whose scenario enables the "file_io" yield), every file
+/// open / read / seek / stat of the code under test is a scheduling point: the disk I/O seam
+static IO_YIELD: AtomicBool = AtomicBool::new(false);
+
+pub fn io_yields(on: bool) {
+    IO_YIELD.store(on, Ordering::SeqCst);
+}
+
+#[inline]
+fn io_point(kind: &'static str) {
+    if IO_YIELD.load(Ordering::Relaxed) && !std::thread::panicking() {
+        if let Some(w) = crate::rt::WORLD.get() {
+            w.io_point(kind);
+        }
+    }
+}
 static SEEN_ANY: AtomicUsize = AtomicUsize::new(0);
 static EVENTS: Mutex<Vec<String>> = Mutex::new(Vec::new());
 
@@ -46,6 +62,7 @@ pub unsafe extern "C" fn open64(path: *const c_char, flags: c_int, mode: mode_t)
     if is_mutating_open(flags) {
         record("open_for_write", path, &format!(" flags={:#x}", flags));
     }
+    io_point("open");
     libc::syscall(libc::SYS_openat, libc::AT_FDCWD, path, flags | libc::O_LARGEFILE, mode as c_int) as c_int
 }
 
@@ -54,6 +71,7 @@ pub unsafe extern "C" fn open(path: *const c_char, flags: c_int, mode: mode_t) -
     if is_mutating_open(flags) {
         record("open_for_write", path, &format!(" flags={:#x}", flags));
     }
+    io_point("open");
     libc::syscall(libc::SYS_openat, libc::AT_FDCWD, path, flags, mode as c_int) as c_int
 }
 
@@ -173,6 +191,44 @@ pub unsafe extern "C" fn fchmodat(dirfd: c_int, path: *const c_char, mode: mode_
 pub unsafe extern "C" fn utimensat(dirfd: c_int, path: *const c_char, times: *const libc::timespec, flags: c_int) -> c_int {
     record("utimens", path, "");
     libc::syscall(libc::SYS_utimensat, dirfd, path, times, flags) as c_int
+}
+
+#[no_mangle]
+pub unsafe extern "C" fn read(fd: c_int, buf: *mut libc::c_void, count: usize) -> isize {
+    if fd > 2 {
+        io_point("read");
+    }
+    libc::syscall(libc::SYS_read, fd, buf, count) as isize
+}
+
+#[no_mangle]
+pub unsafe extern "C" fn pread64(fd: c_int, buf: *mut libc::c_void, count: usize, offset: i64) -> isize {
+    io_point("pread");
+    libc::syscall(libc::SYS_pread64, fd, buf, count, offset) as isize
+}
+
+#[no_mangle]
+pub unsafe extern "C" fn pread(fd: c_int, buf: *mut libc::c_void, count: usize, offset: i64) -> isize {
+    io_point("pread");
+    libc::syscall(libc::SYS_pread64, fd, buf, count, offset) as isize
+}
+
+#[no_mangle]
+pub unsafe extern "C" fn lseek64(fd: c_int, offset: i64, whence: c_int) -> i64 {
+    io_point("seek");
+    libc::syscall(libc::SYS_lseek, fd, offset, whence) as i64
+}
+
+#[no_mangle]
+pub unsafe extern "C" fn lseek(fd: c_int, offset: i64, whence: c_int) -> i64 {
+    io_point("seek");
+    libc::syscall(libc::SYS_lseek, fd, offset, whence) as i64
+}
+
+#[no_mangle]
+pub unsafe extern "C" fn statx(dirfd: c_int, path: *const c_char, flags: c_int, mask: libc::c_uint, buf: *mut libc::statx) -> c_int {
+    io_point("stat");
+    libc::syscall(libc::SYS_statx, dirfd, path, flags, mask, buf) as c_int
 }
 
 /// The monitor is trusted only if it sees std's own calls: create + delete a file in `dir`.
